@@ -40,6 +40,9 @@ public:
     static double volume(cell& c){ return c.volume_; }
     static unsigned id(cell& c){ return c.cell_id_; }
     static bool node_used(const node& n){ return n.is_used_; }
+    // what cell::apply_internal_forces does at the start of every iteration of the solver (after refine_meshes, before the next
+    // call of cell_divider::run): the cached face areas, the cell area and the cell volume are those of the current mesh
+    static void refresh_caches(cell& c){ c.update_all_face_normals_and_areas(); c.area_ = c.compute_area(); c.volume_ = c.compute_volume(); }
     static bool face_used(const face& f){ return f.is_used_; }
     // nodes (used flag + position) | faces (used flag + node ids) | free queues, as the vectors store them
     static std::string dump(cell& c, bool with_pos){
@@ -187,7 +190,7 @@ int main(){
             else if(w[0] == "rebase" && c){ try{ c->rebase(); std::cout << "ok\n"; } catch(const std::exception& e){ std::cout << "err " << exc_name(e) << "\n"; } }
             else if(w[0] == "refine" && w.size() == 3 && c){
                 local_mesh_refiner lmr(from_hex(w[1]), from_hex(w[2]), false);
-                try{ lmr.refine_mesh(c); std::cout << "returned\n"; } catch(const std::exception& e){ std::cout << "threw " << exc_name(e) << "\n"; }
+                try{ lmr.refine_mesh(c); cell_tester::refresh_caches(*c); std::cout << "returned\n"; } catch(const std::exception& e){ std::cout << "threw " << exc_name(e) << "\n"; }
             }
             else if(w[0] == "centroid" && c){ std::cout << hv(c->compute_centroid()) << "\n"; }
             else if(w[0] == "plane" && w.size() == 7){
